@@ -258,6 +258,31 @@ def campaign(c):
                             c.violation('bind:designation:' + m['path'], 'the values designated for `seq` and `ack` (%#x, %#x) are not the numbers in the segment header (%#x, %#x) when the call also says (%s)' % (S, A, sq, ak, ', '.join(o)), dict(func=m['path'], src=src))
                     c.traces_validated += 1
         c.case(('designation-visible', m['path']), dict(kind='designation-visible', method=m['path'], contexts=len(others)))
+    # options designated when an object is CREATED are what every later call on it shows: the header options of a fragmentation
+    # context (id, evil, df, ttl, proto, each given and omitted) under every kind of request (first / middle / last fragment, tail,
+    # whole datagram)
+    data = bytes(range(40))
+    for bits in range(32):
+        o = dict(id=0x1234, evil=True, df=True, ttl=33, proto=200)
+        given = {k: v for j, (k, v) in enumerate(o.items()) if bits >> j & 1}
+        dflt = dict(id=0, evil=False, df=False, ttl=64, proto=17)
+        ctor = 'ipv4::frag(1.2.3.4, 6.7.8.9, %s"|%s|")' % (''.join('%s: %s, ' % (k, str(v).lower() if isinstance(v, bool) else v) for k, v in given.items()), data.hex())
+        calls = ['fragment(0, 1)', 'fragment(1, 2)', 'fragment(2, 3)', 'fragment(0, 5)', 'fragment(4, 1)', 'tail(0)', 'tail(3)', 'datagram()']
+        src = ('import ipv4;\nlet g = %s;\n' % ctor + ''.join('g.%s;\n' % x for x in calls)).encode()
+        impl, model = progdiff.run_both(c, src)
+        progdiff.compare(c, src, impl, model, 'designation-ctor', times=False)
+        recs = progdiff.pcap_records(impl['file'] or b'')
+        if impl['outcome'][0] != 'success' or len(recs) != len(calls):
+            c.violation('bind:designation:ipv4::frag', 'a context with documented options is not usable: %s' % (impl['outcome'][:3],), dict(func='ipv4::frag', src=src.decode()))
+        else:
+            for call, (_, fr) in zip(calls, recs):
+                f = dict(x.split('=', 1) for x in c.model.ask('oracle frag ' + core.sh_hex(fr[14:])).split(' ')[1:] if '=' in x)
+                for k in dflt:
+                    want = given.get(k, dflt[k])
+                    if f.get(k) != (str(want).lower() if isinstance(want, bool) else str(want)):
+                        c.violation('bind:designation:ipv4::frag', 'the value designated for `%s` when the context was created (%s) is not what %s shows (%s)' % (k, want, call, f.get(k)), dict(func='ipv4::frag', src=src.decode()))
+            c.traces_validated += 1
+        c.case(('designation-ctor', bits), dict(kind='designation-ctor', options=sorted(given)) if bits % 8 == 0 else None)
     c.extra['exhaustive_space'] = 'all %d signatures x call shapes of length <= %d over (5 name choices x 3 values)' % (len(lib.funcs), L)
     m = 3000 if c.quick else 100000
     for i in range(m):
